@@ -771,6 +771,39 @@ Proof.
   - eapply Forall_impl; [|exact Fq]. intros b Hb. apply act_events_other_mid, Hb.
 Qed.
 
+(* ---------- a post whose client hangs up while the handler is suspended ---------- *)
+Definition g_stub_cfg : cfg := {| g_provider := false; g_stateless := false |}.
+Lemma no_message_in_run mid g sid link aok inp :
+  filter (ckp (is_message_of mid)) (run_session g sid link aok inp) = [].
+Proof.
+  apply filter_ckp_nil.
+  destruct (run_session_filter (is_message_of mid) g sid link aok inp) as [r ->].
+  - intros k Hk. destruct k; try discriminate; reflexivity.
+  - unfold run_tail. destruct link; [|reflexivity]. rewrite conts_capp. destruct (aok _); reflexivity.
+Qed.
+
+(* with no suspension point between the two appends and the spawn, a dropped request is no activity at all … *)
+Lemma post_hung_safe po g aok mid sid inp dropped : post_order_safe po = true ->
+  post_message_hung po g aok mid sid inp dropped = if dropped then [] else post_message g aok mid sid inp.
+Proof. intros H. destruct po; [reflexivity | discriminate]. Qed.
+
+(* … so, dropped or not, a message that reached the thread has its run_spawned frame (when that append succeeds) *)
+Theorem post_hung_message_has_run po g aok mid sid inp dropped : post_order_safe po = true ->
+  aok (CRunSpawned sid mid) = true ->
+  count_ck (is_spawn_of mid) (post_message_hung po g aok mid sid inp dropped)
+  = count_ck (is_message_of mid) (post_message_hung po g aok mid sid inp dropped).
+Proof.
+  intros H O2. rewrite (post_hung_safe _ _ _ _ _ _ _ H). destruct dropped; [reflexivity|].
+  unfold post_message, count_ck. destruct (aok (CMessage mid)); [|reflexivity]. rewrite O2.
+  cbn [filter ckp is_spawn_of is_message_of]. rewrite N.eqb_refl, no_spawn_in_run, no_message_in_run. reflexivity.
+Qed.
+
+(* REFUTED for the order before the fix: the message is logged, the request is dropped at the lock, no run *)
+Lemma post_hung_unfixed_orphan :
+  count_ck (is_message_of 7) (post_message_hung PoAppendFirst g_stub_cfg all_ok 7 1 (IPrompt true []) true) = 1%nat
+  /\ count_ck (is_spawn_of 7) (post_message_hung PoAppendFirst g_stub_cfg all_ok 7 1 (IPrompt true []) true) = 0%nat.
+Proof. split; reflexivity. Qed.
+
 Lemma filter_weaker {A} (p q : A -> bool) l : (forall x, p x = true -> q x = true) -> filter q l = [] -> filter p l = [].
 Proof.
   intros H. induction l as [|x l IH]; cbn [filter]; [auto|]. destruct (q x) eqn:Q; [discriminate|].
